@@ -8,7 +8,8 @@ build` after this step re-proves the theorems against what the code says now.
 
 Function BODIES of arithmetic / string-formatting / decoding code (the functions listed in
 tools/py2lean.py TARGETS: to_ical encoders, from_ical decoders, parser.dquote / q_join) are
-translated too, by tools/py2lean.py, into Gen/Bodies.lean, Gen/BodiesDec.lean, Gen/BodiesParser.lean;
+translated too, by tools/py2lean.py, into Gen/Bodies.lean, Gen/BodiesDec.lean, Gen/BodiesParser.lean,
+Gen/BodiesLine.lean, Gen/BodiesFold.lean, Gen/BodiesText.lean (loops included);
 theorems prove each regenerated body equal to the hand model (lean/ICal/Lemmas/Bodies*.lean).
 
 All other control flow is not translated (it is hand-modelled and tied by the correspondence
@@ -668,7 +669,9 @@ def gen_misc(src):
 def gen_bodies(src, group='enc'):
     """function bodies: tools/py2lean.py (Python subset -> Lean definitions), one `def` per function.
     Groups: enc = the to_ical encoders (Bodies.lean), dec = the from_ical decoders (BodiesDec.lean),
-    parser = parser.dquote / q_join (BodiesParser.lean); one generated file each, so that a failure breaks the tie
+    parser = parser.dquote / q_join / q_split (BodiesParser.lean), line = escape_string / unescape_string /
+    Contentline.raw_value / the scanning loop of Contentline.parts (BodiesLine.lean), fold = foldline
+    (BodiesFold.lean), text = split_on_unescaped_comma (BodiesText.lean); one generated file each, so that a failure breaks the tie
     only of the properties whose Lean modules import that file"""
     import py2lean
     try:
@@ -689,10 +692,23 @@ def gen_bodies_parser(src):
     return gen_bodies(src, 'parser')
 
 
+def gen_bodies_line(src):
+    return gen_bodies(src, 'line')
+
+
+def gen_bodies_fold(src):
+    return gen_bodies(src, 'fold')
+
+
+def gen_bodies_text(src):
+    return gen_bodies(src, 'text')
+
+
 # ---------------------------------------------------------------- driver
 
 GENERATORS = [('Parser.lean', gen_parser), ('Cal.lean', gen_cal), ('Prop.lean', gen_prop), (None, gen_misc),
-              ('Bodies.lean', gen_bodies), ('BodiesDec.lean', gen_bodies_dec), ('BodiesParser.lean', gen_bodies_parser)]
+              ('Bodies.lean', gen_bodies), ('BodiesDec.lean', gen_bodies_dec), ('BodiesParser.lean', gen_bodies_parser),
+              ('BodiesLine.lean', gen_bodies_line), ('BodiesFold.lean', gen_bodies_fold), ('BodiesText.lean', gen_bodies_text)]
 
 
 def write_if_changed(path, content):
